@@ -5,7 +5,10 @@ from . import zones as Z
 from . import tzif as T
 from . import civil as C
 
-THEOREMS = {'C13': [], 'C20': [], 'C19': []}
+THEOREMS = {'C13': ['Cctz.C13.map_monotone', 'Cctz.C13.same_name_same_identity', 'Cctz.C13.result_is_sequential', 'Cctz.C13.distinct_names_distinct_zones', 'Cctz.C13.progress'],
+            'C20': ['Cctz.C20.factory_on_caller_thread', 'Cctz.C20.factory_never_for_fixed', 'Cctz.C20.factory_once_sequential', 'Cctz.C20.cached_load',
+                    'Cctz.C20.failed_stays_failed', 'Cctz.C20.contract_counterexample'],
+            'C19': ['Cctz.C19.absolute', 'Cctz.C19.relative', 'Cctz.C19.local_resolution', 'Cctz.C19.internal_names', 'Cctz.C19.failure_is_utc']}
 
 
 def schedules(k):
